@@ -356,7 +356,11 @@ def decide_build(pid, spec, b, tier, oc, seed):
                 break
             path2 = os.path.join(WORK, '%s_%s_nohint.rs' % (pid, bname))
             open(path2, 'w').write(text2)
-            r2 = vrun.run_verus(path2, modules=mods, threads=int(os.environ.get('VERIF_THREADS', '4')), extra=xtra, rlimit=40)
+            try:
+                r2 = vrun.run_verus(path2, modules=mods, threads=int(os.environ.get('VERIF_THREADS', '4')), extra=xtra,
+                                    timeout=int(os.environ.get('VERIF_ATTEMPT_TIMEOUT', '240')))
+            except subprocess.TimeoutExpired:
+                break
             a2 = vrun.analyse(text2, regions2, r2)
             if r2.json is None:
                 break
@@ -392,13 +396,19 @@ def decide_build(pid, spec, b, tier, oc, seed):
         inr = lambda ln: any(fl <= ln <= end for (fl, end) in ranges)
         c1 = os.path.basename(path)[:-3]
 
-        def attempt(vlines, tag, what):
+        def attempt(vlines, tag, what, rlimit=None):
             """run the variant; merge per function; returns (improved, variant_analysis)"""
             nonlocal a
             vtext = '\n'.join(vlines)
             vpath = os.path.join(WORK, '%s_%s_%s.rs' % (pid, bname, tag))
             open(vpath, 'w').write(vtext)
-            rv = vrun.run_verus(vpath, modules=mods, threads=int(os.environ.get('VERIF_THREADS', '4')), extra=xtra, rlimit=40)
+            try:
+                # time-boxed: a variant with weakened invariants can send the solver into long fruitless searches
+                rv = vrun.run_verus(vpath, modules=mods, threads=int(os.environ.get('VERIF_THREADS', '4')), extra=xtra, rlimit=rlimit,
+                                    timeout=int(os.environ.get('VERIF_ATTEMPT_TIMEOUT', '240')))
+            except subprocess.TimeoutExpired:
+                oc.notes.append('%s: %s timed out, ignored' % (bname, what))
+                return False, None
             av = vrun.analyse(vtext, regions, rv)
             if rv.json is None or av['hard_errors']:
                 return False, None
@@ -425,10 +435,10 @@ def decide_build(pid, spec, b, tier, oc, seed):
         lines2, n_iso = relax_loop_isolation(lines, sorted(ranges)) if ranges else (lines, 0)
         last_av = a
         if n_iso:
-            ok2, av = attempt(lines2, 'iso', 'second attempt with loop_isolation(false) on %d loop(s) of those functions' % n_iso)
+            ok2, av = attempt(lines2, 'iso', 'second attempt with loop_isolation(false) on %d loop(s) of those functions' % n_iso, rlimit=40)
             if av is not None:
                 cur, last_av = lines2, av      # keep the relaxed loops for the next attempts even if they did not help alone
-        for rnd in range(3):
+        for rnd in range(2):
             if not any(inr(e['site_line']) for e in a['errors']):
                 break
             cur2, n_drop = weaken_failed_invariants(cur, [e for e in last_av['errors'] if inr(e['site_line'])], inr)
@@ -643,7 +653,8 @@ def write_replay(pid, v, idx, extra=None):
 def main():
     args = sys.argv[1:]
     if not args:
-        sys.exit(__doc__)
+        print(__doc__)
+        sys.exit(2)
     pid = args[0]
     tier = os.environ.get('VERIF_TIER', 'quick')
     replay = None
@@ -659,7 +670,8 @@ def main():
             i += 1
     seed = int(os.environ.get('VERIF_SEED', '0') or 0)
     if pid not in P.PROPS:
-        sys.exit('unknown or unclaimed property %s' % pid)
+        print('unknown or unclaimed property %s' % pid)
+        sys.exit(2)
     spec = P.PROPS[pid]
     t0 = time.time()
     if replay:
@@ -786,4 +798,13 @@ def do_replay(pid, spec, path):
 
 
 if __name__ == '__main__':
-    sys.exit(main())
+    try:
+        rc = main()
+    except SystemExit:
+        raise
+    except BaseException as ex:     # a crash of the machinery is never an alarm: exit 2, say why
+        import traceback
+        traceback.print_exc()
+        print('UNDECIDED internal error in the check machinery: %r' % (ex,))
+        rc = 2
+    sys.exit(rc)
